@@ -35,8 +35,8 @@ class StepBudgetExceeded(Exception):
     (bounds every simulated run; such an update counts as rejected)."""
 
 
-MAX_SOLVER_STEPS = 60_000
-MAX_CALLBACK_CALLS = 600_000
+MAX_SOLVER_STEPS = 30_000
+MAX_CALLBACK_CALLS = 150_000
 
 
 # --------------------------------------------------------------------------- seams
@@ -176,6 +176,7 @@ class Callbacks:
         self.fired_at = None
         self.steps_at_fire = None
         self.made_at_fire = None
+        self.saw_nonzero_L = False
 
     def _yield(self, site):
         if self.baton is not None:
@@ -218,6 +219,8 @@ class Callbacks:
             Lp = tr.k * (tr.Q @ Lb @ tr.QT)
         else:
             Lp = tr.k * self.flow.base(tr.k * t, x)
+        if not self.saw_nonzero_L and np.any(Lp):
+            self.saw_nonzero_L = True
         if kind == "L_malformed" and i >= f["at_call"]:
             self._fire()
             shape = f.get("shape", "2x2")
@@ -582,6 +585,7 @@ class World:
                                           (plan is not None and cnt.get("made", 0) > 0))),
             steps_at_fire=cb.steps_at_fire,
             gbs=gbs_rec, derivs=drec, flow=fi, path=pi, params=qi, regime_field=ri,
+            L_nonzero_seen=cb.saw_nonzero_L,
             regime_used=regime_before if not use_regime else rec["regime_after"],
         )
         if rec["status"] == "ok":
@@ -651,7 +655,7 @@ class World:
                    n_before=n_before,
                    n_after=[(len(m.obj.orientations), len(m.obj.fractions)) for m in ms],
                    nL=cb.nL, nP=cb.nP, nR=cb.nR, steps=cnt.get("steps", 0), fired=False,
-                   flow=fi, path=pi, params=qi, regime_field=ri)
+                   flow=fi, path=pi, params=qi, regime_field=ri, L_nonzero_seen=cb.saw_nonzero_L)
         if rec["status"] == "ok":
             eps = self.strain_over(flow, path, op["t0"], op["t1"])
             rec["strain"] = eps
